@@ -1,5 +1,6 @@
 PROP = {
     "thm": "Umya.Thm.C16",
+    "frame_shared_state": True,
     "harness": "c16",
     "level": "proof",
     "stateful": False,
